@@ -13,6 +13,7 @@ structure St where
   norm : NormSt := {}
   up : UpSt := {}
   watch : WatchSt := {}
+  fan : FanSt := {}
 
 /-- note-name engine (C11) -/
 def noteLine (toks : List String) : Option String :=
@@ -38,6 +39,9 @@ def St.line (s : St) (line : String) : St × Option String :=
     else if t.startsWith "tpl." ∨ t.startsWith "fs." ∨ t = "upkeep" ∨ t = "crashstates" then
       let (p, o) := s.up.line toks
       ({ s with up := p }, o)
+    else if t.startsWith "fan." then
+      let (p, o) := s.fan.line toks
+      ({ s with fan := p }, o)
     else if t.startsWith "w." then
       let (p, o) := s.watch.line toks
       ({ s with watch := p }, o)
